@@ -8,7 +8,8 @@ import itertools, re
 K1 = "uUQilqhHaAbcvsp"
 K2 = "iUqcvspb"
 K3 = "iUcs"
-LIMITS = [2, 3, 8, 64]
+LIMITS = [2, 3, 7, 8, 16, 128]
+KD = "iUcsv"        # kinds of the deferred (rvalue) packs, at most 2 arguments
 ALPHA = b"{}:09xq"
 CONVS = ["", "b", "c", "d", "i", "o", "X", "x"]
 
@@ -160,6 +161,22 @@ def gen_fmt_groups(rng, n, malformed=0.15):
     return gs
 
 
+def deferred_groups(rng, n):
+    """fmt objects built from rvalue arguments and rendered later (harness line `defer ret|var`)"""
+    gs = []
+    fixed = [(b"{}", [("i", "-123456789")]), (b"{}|{}", [("i", "2147483647"), ("U", str(2**64 - 1))]), (b"{:x}", [("U", "3735928559")]),
+             (b"{}", [("v", hx(b"view text"))]), (b"{}", [("s", hx(b"c string"))]), (b"{:c}{}", [("c", "65"), ("c", "-7")]),
+             (b"a{1}b{0:08d}c", [("i", "-42"), ("v", hx(b"zz"))]), (b"{}{}", [("s", hx(b"left")), ("i", "77")]), (b"no args {{}}", [])]
+    for f, a in fixed:
+        for how in ("ret", "var"):
+            gs.append(grp(f, a, "deferred") + ["defer " + how])
+    for _ in range(n):
+        na = rng.choice([1, 1, 2, 2])
+        pack = [rand_arg(rng, KD) for _ in range(na)]
+        gs.append(grp(rand_format(rng, na, 0.05), pack, "deferred") + ["defer " + rng.choice(["ret", "var"])])
+    return gs
+
+
 def product_groups(rng, full):
     """every conversion x every argument kind x the boundary values of the kind x fill/width combinations"""
     gs = []
@@ -260,21 +277,70 @@ def logger_group(rng, limit, total, pieces, endlog=True, tag="logger"):
     ls = ["log %d" % limit]
     for p in split_text(rng, text, pieces):
         r = rng.random()
-        if r < 0.45:
+        if r < 0.4:
             ls.append("put s " + hx(p))
-        elif r < 0.8:
+        elif r < 0.7:
             ls.append("put v " + hx(p))
+        elif r < 0.8 and len(p) <= 3 and all(48 <= b <= 57 for b in p) and (p[:1] != b"0" or p == b"0") and p:
+            ls.append("put i " + p.decode())
         elif r < 0.9 and b"{" not in p and b"}" not in p:
             ls.append("putf " + hx(p[:len(p) // 2] + b"{}" + p[len(p) // 2:]) + " i " + str(rng.choice(boundary("i"))))
         else:
             ls.append("putf " + hx(b"{}") + " s " + hx(p))
-    if rng.random() < 0.15:
+    if rng.random() < 0.35:
         k = rng.choice("uUQilqhHaAbcp")
         ls.insert(rng.randrange(1, len(ls) + 1), "put %s %s" % (k, rng.choice(boundary(k))))
     if endlog:
         ls.append("endlog")
     ls.append("tag " + tag)
     return ls
+
+
+def nonbrace_text(rng, n):
+    return bytes(rng.choice(b"abcdefghijklmnopqrstuvwxyzABCXYZ0123456789 .,-_%") for _ in range(n))
+
+
+def logger_boundary_groups(rng, full):
+    """a C-string append that ends with the buffer exactly full (Limit-1 bytes pending), one short of it, or just
+    flushed - at the first boundary and at each multiple - followed by appends of the other kinds: integers and
+    chars (digit by digit through append(char)), views (byte by byte), another C string, a fmt() object"""
+    gs = []
+    follow_all = ["put i -1234567", "put U 18446744073709551615", "put c 65", "put c -8", "put v " + hx(b"vw"), "put v -",
+                  "put s " + hx(b"st"), "putf " + hx(b"<{}>") + " i 90", "put b 1", "put p 48879", "put Q 7", "put h -300"]
+    for limit in LIMITS:
+        ends = set()
+        for m in (1, 2, 3):
+            for d in (-1, 0, 1):
+                ends.add(m * (limit - 1) + d); ends.add(m * limit + d)
+        for end in sorted(e for e in ends if e >= 0):
+            follows = follow_all if full else rng.sample(follow_all, 5)
+            for fo in follows:
+                for prefix_kind in (None, "v", "i", "c", "s"):
+                    if prefix_kind is not None and not full and rng.random() < 0.5:
+                        continue
+                    ls = ["log %d" % limit]
+                    pre = 0
+                    if prefix_kind == "v":
+                        pre = min(end, rng.choice([1, 2, 3])); ls.append("put v " + hx(nonbrace_text(rng, pre)))
+                    elif prefix_kind == "s":
+                        pre = min(end, rng.choice([1, 2])); ls.append("put s " + hx(nonbrace_text(rng, pre)))
+                    elif prefix_kind == "i":
+                        v = rng.choice([7, -5, 123, 100000]); t = str(v)
+                        if len(t) > end:
+                            continue
+                        pre = len(t); ls.append("put i %d" % v)
+                    elif prefix_kind == "c":
+                        v = rng.choice([5, 65, -9, 127]); t = str(v)
+                        if len(t) > end:
+                            continue
+                        pre = len(t); ls.append("put c %d" % v)
+                    ls.append("put s " + hx(nonbrace_text(rng, end - pre)))      # the C string ends at `end` bytes of text
+                    ls.append(fo)
+                    if rng.random() < 0.4:
+                        ls.append(rng.choice(follow_all))
+                    ls += ["endlog", "tag logger-boundary"]
+                    gs.append(ls)
+    return gs
 
 
 def logger_groups(rng, full):
@@ -286,7 +352,7 @@ def logger_groups(rng, full):
             for d in (-1, 0, 1):
                 lens.add(max(0, m * (limit - 1) + d))
         for total in sorted(lens):
-            for pieces in ([1, 2, 3, 4] if full or limit < 64 else [1, 3]):
+            for pieces in ([1, 2, 3, 4] if full or limit < 64 else [2, 3]):
                 gs.append(logger_group(rng, limit, total, pieces))
     # special shapes: no endlog at all, two endlogs, appends after endlog, an assertion in the middle
     for limit in LIMITS:
@@ -323,6 +389,16 @@ def corpus():
               + ["next"] + grp(b"{1}{}", [("i", "1"), ("i", "2")]) + ["next"] + grp(b"{a}{}", [("i", "7")])))
     g.append(("corpus-conv-c", grp(b"{:c}", [("i", "65")]) + ["next"] + grp(b"{:c}", [("c", "65")]) + ["next"] + grp(b"{:c}", [("b", "1")])
               + ["next"] + grp(b"{:c}", [("p", "65")]) + ["next"] + grp(b"{:c}", [("s", hx(b"zz"))]) + ["next"] + grp(b"x{:c}y{}", [("U", "65")])))
+    # seeded change missed once: fmt() holding rvalue arguments by reference (fmt_impl<Ts &&...>)
+    g.append(("corpus-fmt-stores", ["traits"]))
+    g.append(("corpus-fmt-deferred", sum([x + ["next"] for x in deferred_groups(__import__("random").Random(1), 0)], [])[:-1]))
+    # seeded change caught only by luck once: C-string append ending with the buffer exactly full, then char-wise appends
+    g.append(("corpus-logger-cstr-full-then-digits", ["log 8", "put s " + hx(b"abcdefg"), "put i 1234567", "endlog", "next",
+                                                      "log 8", "put s " + hx(b"abcdefgh"), "put i -12", "put v " + hx(b"xy"), "endlog", "next",
+                                                      "log 7", "put v " + hx(b"ab"), "put s " + hx(b"cdef"), "put c 65", "put U 99", "endlog", "next",
+                                                      "log 16", "put s " + hx(b"0123456789abcde"), "put i 5", "put s " + hx(b"0123456789abcd"), "put c -3", "endlog", "next",
+                                                      "log 128", "put s " + hx(b"q" * 127), "put i 31337", "put s " + hx(b"r" * 122), "put Q 424242", "endlog", "next",
+                                                      "log 2", "put s " + hx(b"a"), "put i 10", "endlog", "next", "log 3", "put s " + hx(b"ab"), "put i 10", "endlog"]))
     g.append(("corpus-three-digit-width", grp(b"{:300}|{0:0999x}", [("i", "-5")])))
     g.append(("corpus-logger-edges", ["log 2", "put s " + hx(b"a"), "endlog", "next", "log 2", "put s " + hx(b"ab"), "endlog", "next",
                                       "log 3", "put s " + hx(b"ab"), "endlog", "next", "log 3", "put s " + hx(b"abc"), "endlog", "next",
@@ -337,6 +413,8 @@ def quick_cases(rng, focus):
         cases += pack_cases("prod", product_groups(rng, False))
         cases += pack_cases("rnd", gen_fmt_groups(rng, 6000, malformed=0.12))
         cases += pack_cases("log", logger_groups(rng, False), per=10)
+        cases += pack_cases("logb", logger_boundary_groups(rng, False), per=10)
+        cases += pack_cases("defer", deferred_groups(rng, 600), per=10)
         cases += pack_cases("alpha", alphabet_groups(rng, 5, sample=2500, packs_per=2))
     if focus in (None, "C20"):
         cases += pack_cases("mal-alpha", alphabet_groups(rng, 5, sample=6000, packs_per=3))
@@ -350,6 +428,8 @@ def thorough_batches(rng, focus):
         yield pack_cases("tprod", product_groups(rng, True))
         yield pack_cases("trnd", gen_fmt_groups(rng, 60000, malformed=0.12))
         yield pack_cases("tlog", logger_groups(rng, True), per=10)
+        yield pack_cases("tlogb", logger_boundary_groups(rng, True), per=10)
+        yield pack_cases("tdefer", deferred_groups(rng, 6000), per=10)
     yield pack_cases("mal-talpha", alphabet_groups(rng, 5, packs_per=3), per=40)
     if focus in (None, "C20"):
         step = 7 ** 6 // 4
